@@ -84,7 +84,7 @@ class CopySuite(Suite):
                     ok = False
                     notes.append("destination differs from the reference: %s" % model.get("cmp_why"))
                 inot = sorted(p for k, p, isdir in r.get("notif", []) if not isdir)
-                mnot = sorted(hx(b"/" + bytes.fromhex(p)) for p in model.get("notif", []) if not self._isdir(model, p))
+                mnot = sorted(hx(b"/" + bytes.fromhex(p)) for p, isdir in model.get("notif", []) if not isdir)
                 if inot != mnot:
                     ok = False
                     notes.append("change notifier calls for non-directories %s != expected %s" % ([bytes.fromhex(p) for p in inot][:5], [bytes.fromhex(p) for p in mnot][:5]))
@@ -225,7 +225,7 @@ class CopyOverlay(CopySuite):
                 a["src"] = hx(b"/" + b"/".join(pat))
                 a["wild"] = True
                 # (a destination that is or becomes a directory: several matches onto one non-directory name is not a union)
-                a["dst"] = hx(rng.choice([b"/", b"/new/", b"/x/y/"]))
+                a["dst"] = hx(rng.choice([b"/", b"/new/", b"/x/y/", b"/new", b"/x/y"]))
             ops.append(self.mk(tree, dst, a))
         return ops
 
@@ -381,6 +381,12 @@ class CopyEscape(CopySuite):
                 a["follow"] = True
             if rng.random() < 0.3:
                 a["replace"] = True
+            if rng.random() < 0.35:
+                a["wild"] = True
+                if rng.random() < 0.4:
+                    cs = bytes.fromhex(a["src"]).split(b"/")
+                    cs[-1] = rng.choice([b"*", cs[-1][:1] + b"*"])
+                    a["src"] = hx(b"/".join(cs))
             ops.append(self.mk(tree, dst, a))
         return ops
 
